@@ -397,9 +397,9 @@ func (x apiExec) run(plan Plan, ops []HOp) *histResult {
 		case opCD:
 			res.err[i] = tr.AuditdEvent(vlib.APIEvent(plan.Sid[op.K], auparse.AUDIT_CRED_DISP, strconv.Itoa(cdPid(plan.Pid[op.K], i)), ts, seq, "success"))
 		case opNoSess:
-			res.err[i] = tr.AuditdEvent(vlib.APIEvent("", pickType(i), "77", ts, seq, "success"))
+			res.err[i] = tr.AuditdEvent(vlib.APIEvent("", pickType(i), sessionlessPid(plan, op, i), ts, seq, "success"))
 		case opUnset:
-			res.err[i] = tr.AuditdEvent(vlib.APIEvent("unset", pickType(i), "77", ts, seq, "success"))
+			res.err[i] = tr.AuditdEvent(vlib.APIEvent("unset", pickType(i), sessionlessPid(plan, op, i), ts, seq, "success"))
 		case opUnknown:
 			res.err[i] = tr.AuditdEvent(vlib.APIEvent("9"+strconv.Itoa(90000+op.K), pickTypeNoLogin(i), "78", ts, seq, "success"))
 		case opStartOpen:
@@ -432,6 +432,15 @@ func (x apiExec) run(plan Plan, ops []HOp) *histResult {
 		res.emitted[i] = rec.Since(n0)
 	}
 	return res
+}
+
+// sessionlessPid: records without a session sometimes come from the very pid
+// of a planned SSH login (and are then LOGIN-typed for i%5==0, see pickType).
+func sessionlessPid(plan Plan, op HOp, i int) string {
+	if len(plan.Pid) == 0 || i%5 != 0 {
+		return "77"
+	}
+	return strconv.Itoa(plan.Pid[op.K%len(plan.Pid)])
 }
 
 func pickType(i int) auparse.AuditMessageType {
@@ -528,7 +537,14 @@ func (rawExec) run(plan Plan, ops []HOp) (*histResult, error) {
 		case opNoSess:
 			ok = send(vlib.AuUser("USER_CMD", ts, seq, 77, "", "PAM:x", "success"))
 		case opUnset:
-			ok = send(vlib.AuUser("USER_CMD", ts, seq, 77, "4294967295", "PAM:x", "success"))
+			if i%2 == 0 {
+				// a LOGIN record whose session is the kernel's unset value, from the
+				// pid of a planned SSH login (legal: e.g. a login that was not
+				// assigned a session id)
+				ok = send(vlib.AuLogin(ts, seq, sessionlessPid(plan, op, 0), "4294967295"))
+			} else {
+				ok = send(vlib.AuUser("USER_CMD", ts, seq, 77, "4294967295", "PAM:x", "success"))
+			}
 		case opUnknown:
 			ok = send(vlib.AuUser("USER_CMD", ts, seq, 78, "9"+strconv.Itoa(90000+op.K), "PAM:x", "success"))
 		case opStartOpen:
